@@ -22,6 +22,7 @@ class Recorder:
         self.active = False
         self.read_paths = []  # paths opened for reading while active (resume side)
         self._handles = 0
+        self._in_move = False
 
     def _rel(self, p):
         p = os.path.abspath(str(p))
@@ -35,6 +36,27 @@ class Recorder:
 
         rec = self
         o_exists, o_move, o_open, o_tsave = os.path.exists, shutil.move, builtins.open, torch.save
+        o_remove, o_unlink, o_rename, o_replace = os.remove, os.unlink, os.rename, os.replace
+
+        def remove(p, *a, **k):
+            if rec.active and rec._rel(p) is not None:
+                rec.ops.append(("remove", rec._rel(p)))
+            return o_remove(p, *a, **k)
+
+        def unlink(p, *a, **k):
+            if rec.active and rec._rel(p) is not None:
+                rec.ops.append(("remove", rec._rel(p)))
+            return o_unlink(p, *a, **k)
+
+        def rename(a_, b_, *a, **k):
+            if rec.active and rec._rel(a_) is not None and rec._rel(b_) is not None and not rec._in_move:
+                rec.ops.append(("move", rec._rel(a_), rec._rel(b_)))
+            return o_rename(a_, b_, *a, **k)
+
+        def replace(a_, b_, *a, **k):
+            if rec.active and rec._rel(a_) is not None and rec._rel(b_) is not None and not rec._in_move:
+                rec.ops.append(("move", rec._rel(a_), rec._rel(b_)))
+            return o_replace(a_, b_, *a, **k)
 
         def exists(p):
             r = o_exists(p)
@@ -49,7 +71,12 @@ class Recorder:
                 ra, rb = rec._rel(a), rec._rel(b)
                 if ra is not None and rb is not None:
                     rec.ops.append(("move", ra, rb))
-            return o_move(a, b, *args, **kw)
+            # shutil.move calls os.rename internally: do not log it twice
+            rec._in_move = True
+            try:
+                return o_move(a, b, *args, **kw)
+            finally:
+                rec._in_move = False
 
         class Handle:
             def __init__(self, f, hid):
@@ -107,10 +134,12 @@ class Recorder:
             return o_tsave(obj, f, *args, **kw)
 
         os.path.exists, shutil.move, builtins.open, torch.save = exists, move, open_, tsave
+        os.remove, os.unlink, os.rename, os.replace = remove, unlink, rename, replace
         try:
             yield self
         finally:
             os.path.exists, shutil.move, builtins.open, torch.save = o_exists, o_move, o_open, o_tsave
+            os.remove, os.unlink, os.rename, os.replace = o_remove, o_unlink, o_rename, o_replace
 
 
 def snapshot(root):
@@ -179,6 +208,8 @@ def crash_images(pre, ops, prefix_step=None):
                 for h in handles.values():
                     if h["path"] == a:
                         h["path"] = b
+        elif kind == "remove":
+            fs.pop(op[1], None)
         elif kind == "open":
             _, hid, path, mode = op
             handles[hid] = dict(path=path, written=bytearray(fs.get(path, b"") if "a" in mode else b""), closed=False)
